@@ -357,3 +357,45 @@ def ensure_vars(run, low, names, w=64):
                 decl.append(d)
             out.append(low.name(i))
     return out, '\n'.join(decl)
+
+
+def limb_witnesses(run, pc, prefixes, k=4, timeout=20):
+    """Word-level witnesses of a path: the conjuncts of the path condition that are pure bit-vector terms over
+    input limbs (no summarised application underneath) are solved alone; up to k distinct assignments of the limb
+    vectors named by `prefixes` (e.g. 'P0.z') are returned as {prefix: [l0..l3]}.  Used only to steer replays."""
+    from . import smt
+    pure = []
+    for c in pc:
+        cone = run.cone([c])
+        if all(run.nodes[i]['op'] not in ('app', 'pack', 'limb', 'sha256', 'uf') for i in cone):
+            pure.append(c)
+    if not pure:
+        return []
+    low = BVLower(run)
+    try:
+        pre = low.emit(pure)
+    except ValueError:
+        return []
+    names = {}
+    for n in run.nodes:
+        if n['op'] == 'var':
+            for pf in prefixes:
+                if n['n'].startswith(pf) and n['n'][len(pf):].isdigit():
+                    names.setdefault(pf, {})[int(n['n'][len(pf):])] = low.name(n['id']) if hasattr(low, 'name') else None
+    script = pre + '\n' + '\n'.join('(assert n%d)' % c for c in pure)
+    out = []
+    for _ in range(k):
+        want = [v for pf in names for v in names[pf].values() if v]
+        declared = [v for v in want if ('declare-fun %s ' % v) in script or ('declare-const %s ' % v) in script]
+        if not declared:
+            break
+        m, _s = smt.get_model(script, declared, timeout=timeout)
+        if not m:
+            break
+        # limbs the word-level constraints do not mention are free: vary them
+        for fill in (0, 1, 1 << 63, 0x9e3779b97f4a7c15, (1 << 64) - 1):
+            w = {pf: [m.get(names[pf].get(i), fill) if names[pf].get(i) in declared else fill for i in range(4)] for pf in names}
+            if w not in out:
+                out.append(w)
+        script += '\n(assert (not (and %s)))' % ' '.join('(= %s #x%016x)' % (v, m[v]) for v in declared)
+    return out
